@@ -116,4 +116,104 @@ theorem label_ref (store : List Res) (s : PyRt.SrcNamer) (sid : Nat) (frag : Fra
   simp only [Prod.mk.injEq] at ha
   exact ⟨ha.1, ha.2, h2 s' st' hs⟩
 
+/-! ### 4. `find_assembly_overlaps` -/
+
+/-- `input_asm.find_overlaps` as the model has it: the scaffold of the bait's name, then the overlap search in it -/
+def overlapsOf (input : List Scaffold) (bait : Fragment) : R (Option OverlapResult) :=
+  lookupScaffold input bait.name >>= fun sc => findOverlaps sc.rows bait
+
+/-- the model state a source state stands for; everything else (`extra`, `cuts`, `nextOid`, `joinGap`, `err`) as in `b0` -/
+def mkBuild (b0 : Build) (store : List Res) (s : PyRt.SrcNamer) (heap : List Found) (found multi : List (Key × Nat)) : Build :=
+  { b0 with store := store, namer := C09.absNamer s, found := C01.absFound heap found, multi := multi.map (·.1) }
+
+/-- the loop state of the translated `find_assembly_overlaps` (both loops) -/
+abbrev FSt := List Res × PyRt.SrcNamer × List Found × List (Key × Nat) × List (Key × Nat)
+
+def RelF (b0 : Build) (st : FSt) (b : Build) : Prop :=
+  C09.WfNamer st.2.1 ∧ C01.Coherent st.2.2.1 st.2.2.2.1 st.2.2.2.2 ∧
+  b = mkBuild b0 st.1 st.2.1 st.2.2.1 st.2.2.2.1 st.2.2.2.2
+
+/-- what the model does with a result that was found (label, trim, append, register its contigs) -/
+def baitFound (tags : List Str) (name : Str) (b : Build) (bait : Fragment) (o : OverlapResult) : R Build :=
+  labelScaffold b.namer o b.store.length bait tags name >>= fun q =>
+  q.2.trimLargeOverhangs b.err >>= fun o' =>
+  .ok (if o'.rows.isEmpty then { b with namer := q.1, store := b.store ++ [{ o := o', added := false }] }
+       else storeFragmentsFound { b with namer := q.1, store := b.store ++ [{ o := o', added := true }] } b.store.length
+              (fragmentsOf o'.rows))
+
+theorem processBait_eq (input : List Scaffold) (tags : List Str) (name : Str) (b : Build) (bait : Fragment) :
+    processBait input tags name b bait
+      = overlapsOf input bait >>= fun r => match r with
+          | none => .ok b
+          | some o => baitFound tags name b bait o := by
+  unfold processBait overlapsOf
+  cases lookupScaffold input bait.name with
+  | error e => rfl
+  | ok sc =>
+    simp only [ok_bind, bind_assoc]
+    cases findOverlaps sc.rows bait with
+    | error e => rfl
+    | ok r =>
+      cases r with
+      | none => rfl
+      | some o =>
+        simp only [ok_bind, baitFound]
+        cases labelScaffold b.namer o b.store.length bait tags name with
+        | error e => rfl
+        | ok q =>
+          obtain ⟨n, o1⟩ := q
+          simp only [ok_bind]
+          cases o1.trimLargeOverhangs b.err with
+          | error e => rfl
+          | ok o2 =>
+            simp only [ok_bind]
+            by_cases h : o2.rows.isEmpty = true <;> simp [h, pure, Except.pure]
+
+/-- a found result: allocated, labelled and trimmed in place, registered -/
+theorem bait_found_ref (b0 : Build) (tags : List Str) (name : Str) (bait : Fragment) (o : OverlapResult)
+    (store : List Res) (s : PyRt.SrcNamer) (heap : List Found) (found multi : List (Key × Nat)) (b : Build)
+    (h : RelF b0 (store, s, heap, found, multi) b)
+    {ρ : Type} (body : R (PyRt.Ctl FSt ρ))
+    (hbody : body =
+      (Gen.Imp.ScaffoldNamer_label_scaffold (store ++ [{ o := o, added := false }]) s store.length bait tags name) >>= fun nk4 =>
+      (OverlapResult.trimLargeOverhangs (getRes nk4.2 store.length) b0.err) >>= fun mu5 =>
+      (if (!((getRes (PyRt.updRes nk4.2 store.length mu5) store.length).rows).isEmpty) = true then
+          (Gen.Imp.BuildAssembly_store_fragments_found (PyRt.markAdded (PyRt.updRes nk4.2 store.length mu5) store.length) heap found multi
+              store.length) >>= fun sf6 =>
+          .ok (sf6.1, sf6.2.1, nk4.1, sf6.2.2.1, sf6.2.2.2)
+        else .ok (PyRt.updRes nk4.2 store.length mu5, heap, nk4.1, found, multi)) >>= fun j7 =>
+      .ok (.next (j7.1, j7.2.2.1, j7.2.1, j7.2.2.2.1, j7.2.2.2.2))) :
+    Ref (nextRel (RelF b0)) body (baitFound tags name b bait o) := by
+  obtain ⟨hw, hc, rfl⟩ := h
+  subst hbody
+  unfold baitFound
+  have hl := label_ref (store ++ [{ o := o, added := false }]) s store.length bait tags name hw
+  rw [getRes_snoc] at hl
+  refine Ref.bind (mdl := labelScaffold (C09.absNamer s) o store.length bait tags name) hl ?_
+  · rintro ⟨s', st'⟩ ⟨n, o1⟩ ⟨hn, hst, hw'⟩
+    simp only [] at hn hst hw'
+    subst hst
+    have hlt : store.length < (store ++ [({ o := o, added := false } : Res)]).length := by simp
+    simp only [ImpNamer.getRes_updRes _ _ _ hlt, ImpNamer.updRes_updRes, updRes_snoc, getRes_snoc, markAdded_snoc]
+    show Ref _ _ (o1.trimLargeOverhangs b0.err >>= _)
+    cases o1.trimLargeOverhangs b0.err with
+    | error e => rfl
+    | ok o2 =>
+      simp only [ok_bind]
+      by_cases he : o2.rows.isEmpty = true
+      · simp only [he, Bool.not_true, Bool.false_eq_true, if_false, if_true, ok_bind]
+        refine Ref.ok ⟨_, rfl, hw', hc, ?_⟩
+        simp only [mkBuild, hn]
+      · simp only [he, Bool.not_false, if_true, if_false]
+        obtain ⟨heap', found', multi', hsrc, hc', hb'⟩ := C01.store_fragments_found_refines
+          { mkBuild b0 store s heap found multi with namer := n, store := store ++ [{ o := o2, added := true }] }
+          heap found multi store.length hc rfl rfl
+        simp only [] at hsrc
+        rw [hsrc]
+        simp only [ok_bind]
+        refine Ref.ok ⟨_, rfl, hw', hc', ?_⟩
+        simp only [getRes_snoc] at hb'
+        refine Eq.trans (b := _) hb' ?_
+        simp only [mkBuild, hn]
+
 end AgpTpf.ImpRemap
